@@ -140,7 +140,7 @@ func TestDnsWalkCases(t *testing.T) {
 				// the hung decoder keeps spinning and allocating in its goroutine: stop here
 				w.Write(Ev{"summary": true, "cases": len(cases), "bad": bad, "stopped_on_hang": true})
 				w.Close()
-				os.Exit(0)
+				exitNow()
 			}
 		}
 	}
